@@ -414,7 +414,7 @@ def g_assign_statement(R, tier):
         "name": (lambda: ast.Name(id=Hole("x", "ident"), ctx=ast.Store()), [("store", "nsp", ("id", "x"), ("val", "V"))]),
         "attribute": (lambda: ast.Attribute(value=CL.src("obj"), attr=Hole("a", "ident"), ctx=ast.Store()),
                       [("ev", "nsp", "obj"), ("setattr", ("val", "obj"), ("const", ("str", ("id", "a"))), ("val", "V"))]),
-        "subscript": (lambda: ast.Subscript(value=CL.src("obj"), slice=CL.src("idx", ast.expr, exclude=[ast.Slice]), ctx=ast.Store()),
+        "subscript": (lambda: ast.Subscript(value=CL.src("obj"), slice=CL.src("idx", ast.expr, exclude=[ast.Slice, ast.Tuple]), ctx=ast.Store()),
                       [("ev", "nsp", "obj"), ("ev", "nsp", "idx"), ("setitem", ("val", "obj"), ("val", "idx"), ("val", "V"))]),
     }
     for first, (mk1, w1) in shapes.items():
@@ -431,7 +431,7 @@ def g_assign_statement(R, tier):
                     else:
                         t2.value = CL.src("obj2")
                         if isinstance(t2, ast.Subscript):
-                            t2.slice = CL.src("idx2", ast.expr, exclude=[ast.Slice])
+                            t2.slice = CL.src("idx2", ast.expr, exclude=[ast.Slice, ast.Tuple])
                         else:
                             t2.attr = Hole("b", "ident")
                     targets.append(t2)
